@@ -22,6 +22,10 @@ var (
 	capOnce  sync.Once
 )
 
+// LogSink, when set before the first record, also receives every record (manager name, text) at the moment it is
+// logged - for drivers that need log records in order with their own events.
+var LogSink func(module, line string)
+
 // InstallLogCapture installs the capturing handler as slog default (once).
 func InstallLogCapture() {
 	capOnce.Do(func() {
@@ -56,6 +60,9 @@ func (c *capture) Handle(_ context.Context, r slog.Record) error {
 		}
 		return true
 	})
+	if sink := LogSink; sink != nil {
+		sink(module, line)
+	}
 	c.mu.Lock()
 	if len((*c.store)[module]) < 64 {
 		(*c.store)[module] = append((*c.store)[module], line)
